@@ -94,19 +94,21 @@ def _tabulate_bn(bn):
     if n > MAX_VARS:
         raise ValueError(f"oracle supports at most {MAX_VARS} variables, got {n}")
     graph = AsynchronousGraph(bn)
+    ctx = graph.symbolic_context()
+    ids = [ctx.find_network_bdd_variable(v) for v in bn.variables()]
     on = []
     for i, v in enumerate(bn.variables()):
         if bn.get_update_function(v) is None:
             # free input without a rule: identity (biobalm: no Petri-net transition)
             on.append(sum(1 << s for s in range(1 << n) if (s >> i) & 1))
             continue
-        bdd = graph.mk_update_function(names[i])
+        bdd = graph.mk_update_function(v)
         m = 0
         if bdd.is_true():
             m = (1 << (1 << n)) - 1
         elif not bdd.is_false():
             for s in range(1 << n):
-                d = {names[j]: bool((s >> j) & 1) for j in range(n)}
+                d = {ids[j]: bool((s >> j) & 1) for j in range(n)}
                 if bdd.r_restrict(d).is_true():
                     m |= 1 << s
         on.append(m)
